@@ -1611,6 +1611,11 @@ class SQLObject(with_metaclass(declarative.DeclarativeMeta, object)):
                 continue
             if join.soClass.__name__ > join.otherClass.__name__:
                 continue
+            if join.intermediateTable in [j.intermediateTable
+                                          for j in joins]:
+                # both sides of a self-referential join are declared
+                # in this class
+                continue
             joins.append(join)
         return joins
 
